@@ -102,9 +102,17 @@ class FsSource:
         self.msgs = []
         self.lines = []
         t = 1_690_000_000 + rng.randint(0, 3)
+        has_usec = layout.time_usec is not None
+        us = 0
         for i in range(n):
-            t += rng.choice([1, 2])   # strictly increasing seconds: equal times are C08's subject
-            rec, vals = fsgen.make_record(layout, i, t, usec=rng.choice([0, 7, 999_999, 123_456]))
+            # strictly increasing times (equal times are C08's subject); where the layout has microseconds, several records
+            # share a second and differ only below it, so the prepended datetime has to be each record's own
+            if has_usec and i and rng.random() < 0.5 and us < 900_000:
+                us += rng.choice([1, 250_000, 99_999])
+            else:
+                t += rng.choice([1, 2])
+                us = rng.choice([0, 7, 123_456]) if has_usec else 0
+            rec, vals = fsgen.make_record(layout, i, t, usec=us)
             self.msgs.append((fsgen.record_instant_ns(layout, vals), rec))
         self.codec = None
 
